@@ -268,6 +268,26 @@ theorem chunking_leaves_no_trace (p : Sha) (a b : List UInt8) (chunks : List (Li
   rw [hu]
   exact ⟨update_update p a b, update_update p a b, foldl_update_flatten chunks p, foldl_update_flatten chunks p⟩
 
+/-- the buffer bytes at and beyond the buffer position carry no information: after ANY chunking of any message, overwrite the
+unused part of `buffer` (everything from `count & 0x3F` on: stale bytes of earlier blocks, of an earlier digest's padding, or -
+in C++ - the indeterminate bytes of a freshly constructed object) with ARBITRARY bytes; every continuation (any further chunks,
+then `finalize`) yields the same digest as the untouched object, namely `Spec.sha256` of everything fed.  This is the model-level
+content of "the constructor need not initialise `buffer`" (the model's `init` picks zeros; the theorem shows the choice is
+unobservable) and of "`reset()` need not clear it". -/
+theorem stale_buffer_bytes_are_irrelevant (chunks more : List (List UInt8)) (junk : List UInt8)
+    (hj : junk.length = 64 - bufferPos (chunks.foldl update init)) :
+    let p := chunks.foldl update init
+    let q : Sha := { p with buffer := p.buffer.take (bufferPos p) ++ junk }
+    (finalize (more.foldl update q)).1 = (finalize (more.foldl update p)).1 ∧
+    (finalize (more.foldl update q)).1 = Spec.sha256 (chunks.flatten ++ more.flatten) := by
+  intro p q
+  have hI : Inv chunks.flatten p := by
+    have := foldl_update_inv transformOK chunks [] init inv_init
+    rwa [List.nil_append] at this
+  have hq := (digest_chunks_from _ q (inv_replace_stale _ p hI junk hj) more).1
+  have hp := (digest_chunks_from _ p hI more).1
+  exact ⟨hq.trans hp.symm, hq⟩
+
 /-! ### non-vacuity: the hypotheses are met by concrete non-trivial inputs -/
 
 example : ([[0x61], [], [0x62, 0x63]] : List (List UInt8)).flatten.length < 2 ^ 61 := by decide
@@ -282,5 +302,7 @@ example : ∃ st0 : Sha256U2.RS, st0.W.length = 16 ∧ st0.state.length = 8 ∧ 
 
 example : update (update init [1, 2]) (List.replicate 70 3) = update init ([1, 2] ++ List.replicate 70 3) :=
   (chunking_leaves_no_trace init [1, 2] (List.replicate 70 3) []).1
+
+example : (64 - bufferPos ([[1, 2, 3]].foldl update init) = 61) ∧ (List.replicate 61 (0xEE : UInt8)).length = 61 := by decide
 
 end Nstd.Sha
